@@ -520,6 +520,18 @@ func verifLemmaSequencerConsecutive(s *sequencer) (uint16, uint16) {
 //@   ensures beyond_untouched [C04]: err == nil ==> forall q :: n <= q && q < len(buf) ==> buf[q] == old(buf[q])
 //@ end
 
+// Packet.Marshal: a fresh buffer of exactly MarshalSize() octets holding what
+// MarshalTo writes (so MarshalTo into any sufficient destination is identical to it).
+//@ spec (Packet).Marshal
+//@   requires wfHeader(p.Header)
+//@   ensures bad_padding [C01,C04]: p.Header.Padding && p.PaddingSize == 0 ==> buf == nil && errIs(err, errInvalidRTPPadding)
+//@   ensures ok [C01,C04]: !(p.Header.Padding && p.PaddingSize == 0) ==> err == nil && buf != nil && fresh(buf) && len(buf) == pktSize(p)
+//@   ensures header [C01,C04]: err == nil ==> hdrFixed(buf, p.Header) && hdrCSRC(buf, p.Header) && (p.Header.Extension ==> hdrExtWord(buf, p.Header))
+//@   ensures payload [C01,C04]: err == nil ==> eqseq(buf, hdrSize(p.Header), p.Payload, 0, len(p.Payload))
+//@   ensures pad_count [C01,C04]: err == nil && p.Header.Padding ==> int(buf[len(buf) - 1]) == int(p.PaddingSize)
+//@   ensures pad_zero [C04]: err == nil && p.Header.Padding ==> forall q :: hdrSize(p.Header) + len(p.Payload) <= q && q < len(buf) - 1 ==> buf[q] == 0
+//@ end
+
 // ===== C05: SetExtension / DelExtension / GetExtension as an ordered map =====
 //
 // The element list is the abstract state: SetExtension replaces the value of
